@@ -80,7 +80,9 @@ func (f *OrefaFile) Chmod(mode fs.FileMode) error {
 		return &fs.PathError{Op: op, Path: f.name, Err: fs.ErrClosed}
 	}
 
+	f.nd.mu.Lock()
 	f.nd.setMode(mode)
+	f.nd.mu.Unlock()
 
 	return nil
 }
@@ -112,7 +114,9 @@ func (f *OrefaFile) Chown(uid, gid int) error {
 		return &fs.PathError{Op: op, Path: f.name, Err: avfs.ErrWinNotSupported}
 	}
 
+	f.nd.mu.Lock()
 	f.nd.setOwner(uid, gid)
+	f.nd.mu.Unlock()
 
 	return nil
 }
